@@ -67,6 +67,10 @@ class NixExpression:
         """Copy nodes to enable immutable-style edits during transforms."""
         if not update:
             return copy(self)
+        if "scope" not in update:
+            # replace() re-runs __post_init__, which would re-own the shared Scope
+            # container of the original; give the copy its own container instead.
+            update = {**update, "scope": Scope(self.scope)}
         return replace(self, **update)
 
     @classmethod
